@@ -954,6 +954,8 @@ class Interp:
         if ck == "Transmute":
             if type(a) is Pt:
                 return a
+            if type(a) is Md and a.kind == "box" and t.tag in ("RawPtr", "Ref"):
+                return a.d["ptr"]
             return self.ctx.top_value(st, ty)
         if ck in ("PointerExposeAddress", "PointerWithExposedProvenance"):
             return self.ctx.top_value(st, ty)
@@ -1164,6 +1166,13 @@ class Interp:
         fr = getattr(self, "_cur_frame", None)
         if fr is None:
             return
+        cinst = self.callable_for_type(fty)
+        captured = []
+
+        def cap(ev, **kw):
+            if ev == "assign" and kw["frame"].inst is cinst and kw["place"]["local"] == 0 and not kw["place"]["projection"]:
+                captured.append((kw["value"], kw["st"].copy()))
+        self.ctx.observers.append(cap)
         self.ctx.quiet += 1
         self.ctx.no_memo = getattr(self.ctx, "no_memo", 0) + 1
         try:
@@ -1174,9 +1183,12 @@ class Interp:
         finally:
             self.ctx.quiet -= 1
             self.ctx.no_memo -= 1
+            self.ctx.observers.remove(cap)
         lo, hi = None, None
-        for r, s2 in outs:
-            if type(r) is not I:
+        # every point where the predicate's result is produced, each in its own path state
+        cands = captured if captured else [(r, s2) for r, s2 in outs]
+        for r, s2 in cands:
+            if type(r) is not I or probe.vid not in s2.itv:
                 return
             try:
                 self.set_itv(s2, r.vid, want, want)
